@@ -188,7 +188,7 @@ def run(ctx):
     _cmp_op(ctx, methods)
     _structure(ctx, m, spec)
     ctx.count('operator methods matched', matched)
-    ctx.floor('Qty operator methods in normal form', matched, 41)
+    ctx.floor('Qty operator methods in normal form', matched, 38)
     ctx.assume('MODE_PINT off: Quantity() builds BasicQuantity, which inherits every method of Qty unchanged')
 
 
